@@ -131,14 +131,14 @@ func run(c *core.Ctx) {
 		var small, rest [][]ccblisten.Ev
 		for _, sc := range t.Scripts {
 			// the real listener always reconnects on a malformed message; scripts in which it
-			// skips one are cut short at that point, so a tenth of them is enough
+			// skips one are cut short at that point, so a tenth of them is enough in the quick tier
 			skipped := false
 			for i, e := range sc {
 				if e.E == "snd" && e.M == "malformed" && (i+1 >= len(sc) || sc[i+1].E != "reg") {
 					skipped = true
 				}
 			}
-			if skipped && rng.Intn(10) != 0 {
+			if skipped && !c.Thorough() && rng.Intn(10) != 0 {
 				continue
 			}
 			if len(sc) <= 6 {
